@@ -73,7 +73,8 @@ def run(pid, repo, run_one):
                         % (base_keys, k1, base_und, u1))
     # (b) seeded corpus
     known = known_keys(pid)
-    for d in sorted(glob.glob(os.path.join(VERIF, "seeded", pid + "-*"))):
+    for d in sorted(d_ for d_ in glob.glob(os.path.join(VERIF, "seeded", pid + "*-*"))
+                    if os.path.basename(d_).split("-")[0].rstrip("abcdefgh") == pid):
         name = os.path.basename(d)
         patch = os.path.join(d, "patch.rebased.diff")
         if not os.path.exists(patch):
